@@ -12,6 +12,7 @@ import (
 
 	"github.com/mitchellh/go-wordwrap"
 	"github.com/sanity-io/litter"
+	"golang.org/x/tools/go/ssa"
 )
 
 func wordwrapWrapString(s string, lim uint) string { return wordwrap.WrapString(s, lim) }
@@ -405,7 +406,117 @@ func init() {
 		return tuple{0, iface{}}
 	}
 	natives["github.com/sanity-io/litter.Sdump"] = func(fr *frame, a []value) value {
-		xs := a[0].([]value)
+		return litterSdump(fr, fr.i.litterConfig(), a[0].([]value))
+	}
+	natives["(github.com/sanity-io/litter.Options).Sdump"] = func(fr *frame, a []value) value {
+		return litterSdump(fr, litterOptionsOf(fr.i.litterOptionsType(), a[0].(structure)), a[1].([]value))
+	}
+	natives["(*github.com/sanity-io/litter.Options).Sdump"] = func(fr *frame, a []value) value {
+		return litterSdump(fr, litterOptionsOf(fr.i.litterOptionsType(), (*a[0].(*value)).(structure)), a[1].([]value))
+	}
+}
+
+// litterOptionsType: the types.Struct of litter.Options in the loaded program.
+func (i *interpreter) litterOptionsType() *types.Struct {
+	p := i.prog.ImportedPackage("github.com/sanity-io/litter")
+	if p == nil {
+		panic(unsupported("litter is not part of the program"))
+	}
+	return p.Type("Options").Type().Underlying().(*types.Struct)
+}
+
+// litterConfig: litter.Config as the interpreted program sees it now.
+func (i *interpreter) litterConfig() litter.Options {
+	p := i.prog.ImportedPackage("github.com/sanity-io/litter")
+	if p == nil {
+		return litter.Config
+	}
+	g, _ := p.Members["Config"].(*ssa.Global)
+	if g == nil {
+		return litter.Config
+	}
+	return litterOptionsOf(i.litterOptionsType(), (*i.globalCell(g)).(structure))
+}
+
+// litterOptionsValue / litterOptionsOf convert litter.Options between the interpreter and the
+// real library (booleans and strings by value; the regexp and the two callbacks of the default
+// configuration travel as an opaque marker: present or nil).
+func litterOptionsValue(t types.Type, o litter.Options) value {
+	st := t.Underlying().(*types.Struct)
+	out := zero(t).(structure)
+	for k := 0; k < st.NumFields(); k++ {
+		switch st.Field(k).Name() {
+		case "Compact":
+			out[k] = o.Compact
+		case "StripPackageNames":
+			out[k] = o.StripPackageNames
+		case "HidePrivateFields":
+			out[k] = o.HidePrivateFields
+		case "HideZeroValues":
+			out[k] = o.HideZeroValues
+		case "HomePackage":
+			out[k] = o.HomePackage
+		case "Separator":
+			out[k] = o.Separator
+		case "StrictGo":
+			out[k] = o.StrictGo
+		case "DisablePointerReplacement":
+			out[k] = o.DisablePointerReplacement
+		case "FormatTime":
+			out[k] = o.FormatTime
+		case "FieldExclusions":
+			if o.FieldExclusions != nil {
+				var marker value = structure{"litter.Config.FieldExclusions"}
+				out[k] = &marker
+			}
+		}
+	}
+	return out
+}
+
+func litterOptionsOf(st *types.Struct, v structure) litter.Options {
+	var o litter.Options
+	for k := 0; k < st.NumFields(); k++ {
+		b, _ := v[k].(bool)
+		str, _ := v[k].(string)
+		switch st.Field(k).Name() {
+		case "Compact":
+			o.Compact = b
+		case "StripPackageNames":
+			o.StripPackageNames = b
+		case "HidePrivateFields":
+			o.HidePrivateFields = b
+		case "HideZeroValues":
+			o.HideZeroValues = b
+		case "HomePackage":
+			o.HomePackage = str
+		case "Separator":
+			o.Separator = str
+		case "StrictGo":
+			o.StrictGo = b
+		case "DisablePointerReplacement":
+			o.DisablePointerReplacement = b
+		case "FormatTime":
+			o.FormatTime = b
+		case "FieldExclusions":
+			if p, ok := v[k].(*value); ok && p != nil {
+				o.FieldExclusions = litter.Config.FieldExclusions
+			}
+		case "FieldFilter", "DumpFunc":
+			if v[k] != nil {
+				if c, ok := v[k].(*closure); !ok || c != nil {
+					if f, ok := v[k].(*ssa.Function); !ok || f != nil {
+						panic(unsupported("litter.Options with a callback"))
+					}
+				}
+			}
+		}
+	}
+	return o
+}
+
+func litterSdump(fr *frame, opts litter.Options, xs []value) value {
+	{
 		nat := make([]interface{}, len(xs))
 		for k, x := range xs {
 			it := x.(iface)
@@ -422,7 +533,7 @@ func init() {
 			}
 			nat[k] = fr.i.toReflectIface(it)
 		}
-		return litter.Sdump(nat...)
+		return opts.Sdump(nat...)
 	}
 }
 
